@@ -320,6 +320,35 @@ def run_case(case, order):
                 fail = f"time of {o._name_} did not increase"
 
         o.update = wrapped
+    # life cycle (C03): order of the calls every component sees, and how often every adapter on a link is finalized
+    calls = {id(o): [] for o in objs}
+    for o in objs:
+        for nm in ("connect", "validate", "finalize"):
+            orig_m = getattr(o, nm)
+
+            def rec(*a, _o=o, _nm=nm, _orig=orig_m, **k):
+                calls[id(_o)].append(_nm)
+                return _orig(*a, **k)
+
+            setattr(o, nm, rec)
+    adapters, seen = [], set()
+    for o in objs:
+        stack = [t for out in o.outputs.values() for t in out.targets]
+        while stack:
+            t = stack.pop()
+            if isinstance(t, fm.sdk.Adapter) and id(t) not in seen:
+                seen.add(id(t))
+                adapters.append(t)
+                stack.extend(t.targets)
+    fin_count = {id(a): 0 for a in adapters}
+    for a in adapters:
+        orig_f = a.finalize
+
+        def fin(_a=a, _orig=orig_f):
+            fin_count[id(_a)] += 1
+            return _orig()
+
+        a.finalize = fin
     try:
         comp.run(end_time=end)
         outcome = "ok"
@@ -341,6 +370,14 @@ def run_case(case, order):
                 fail = f"C03: run returned with {o._name_} at {o.time} < end {end}"
             if o.status != fm.ComponentStatus.FINALIZED:
                 fail = f"C03: {o._name_} ends in state {o.status}"
+        for o in objs:
+            seq = calls[id(o)]
+            collapsed = [x for i, x in enumerate(seq) if i == 0 or seq[i - 1] != x]
+            if collapsed != ["connect", "validate", "finalize"] or seq.count("validate") != 1 or seq.count("finalize") != 1:
+                fail = fail or f"C03: {o._name_} saw the life-cycle calls {collapsed} (validate x{seq.count('validate')}, finalize x{seq.count('finalize')})"
+        for a in adapters:
+            if fin_count[id(a)] != 1:
+                fail = fail or f"C03: adapter {a.name} was finalized {fin_count[id(a)]} times"
     if fail is None:
         if outcome.startswith("error"):
             fail = f"C04: run ended with {outcome}"
